@@ -858,6 +858,12 @@ pub fn configs(mode: Mode, tier: Tier) -> Vec<Cfg> {
             }
         }
     }
+    // long runs of Interrupted answers (a refill must keep retrying)
+    if mode != Mode::C14 {
+        for chunk0 in [1usize, 2] {
+            v.push(Cfg { n: 2, fault_at: None, fault_kind: 0, chunk0, ctor: Ctor::FromRead, interrupts: 12, lie: None, menu_all: false });
+        }
+    }
     // the constructors' own chunk size (never overridden by set_chunk_size)
     for &n in ns {
         v.push(Cfg { n, fault_at: None, fault_kind: 0, chunk0: 0, ctor: Ctor::FromRead, interrupts: 0, lie: None, menu_all: false });
